@@ -75,22 +75,22 @@ impl<'a> Rd<'a> {
     pub fn new(b: &'a [u8]) -> Self {
         Rd { b, spans: vec![] }
     }
-    fn u16(&self, at: usize) -> R<u16> {
+    pub fn u16(&self, at: usize) -> R<u16> {
         self.b
             .get(at..at + 2)
             .map(|s| u16::from_be_bytes([s[0], s[1]]))
             .ok_or_else(|| format!("read of u16 at {at} is outside the table ({} bytes)", self.b.len()))
     }
-    fn i16(&self, at: usize) -> R<i16> {
+    pub fn i16(&self, at: usize) -> R<i16> {
         self.u16(at).map(|v| v as i16)
     }
-    fn u32(&self, at: usize) -> R<u32> {
+    pub fn u32(&self, at: usize) -> R<u32> {
         self.b
             .get(at..at + 4)
             .map(|s| u32::from_be_bytes([s[0], s[1], s[2], s[3]]))
             .ok_or_else(|| format!("read of u32 at {at} is outside the table ({} bytes)", self.b.len()))
     }
-    fn span(&mut self, start: usize, end: usize, kind: &'static str) -> R<()> {
+    pub fn span(&mut self, start: usize, end: usize, kind: &'static str) -> R<()> {
         if end > self.b.len() {
             return Err(format!("{kind} at {start}..{end} runs past the table end {}", self.b.len()));
         }
